@@ -46,12 +46,12 @@ func (c *ctl) fn(name string) *ssa.Function {
 
 // which engines each property uses
 var propEngines = map[string][]string{
-	"C01": {"cmp", "ord", "guard", "flow"}, "C02": {"cmp", "guard", "flow"}, "C03": {"pair", "guard", "flow"},
+	"C01": {"cmp", "ord", "guard", "flow"}, "C02": {"cmp", "guard", "flow", "exact"}, "C03": {"pair", "guard", "flow"},
 	"C04": {"ord", "guard", "flow"}, "C05": {"ord", "pair", "gby"}, "C06": {"cmp", "guard", "flow"},
 	"C07": {"ord", "pair", "reach"}, "C08": {"err", "ord", "guard"}, "C09": {"pair", "token", "chan", "ord"},
-	"C10": {"token", "guard", "ord"}, "C11": {"pair", "ord", "exh"}, "C12": {"guard"}, "C13": {"guard", "flow"},
-	"C14": {"pair", "gby"}, "C15": {"guard"}, "C16": {"guard", "flow"}, "C17": {"pair", "guard", "ord"},
-	"C18": {"exh", "pair", "guard", "reach"}, "C19": {"flow", "ord", "guard"}, "C20": {"fresh", "flow"},
+	"C10": {"token", "guard", "ord"}, "C11": {"pair", "ord", "exh"}, "C12": {"guard", "sib"}, "C13": {"guard", "flow", "exact", "sib"},
+	"C14": {"pair", "gby", "guard", "flow"}, "C15": {"guard", "sib"}, "C16": {"guard", "flow", "sib"}, "C17": {"pair", "gby", "guard", "ord", "exact"},
+	"C18": {"exh", "pair", "guard", "reach"}, "C19": {"flow", "ord", "guard", "exact", "max"}, "C20": {"fresh", "flow"},
 }
 
 func runControls(id string, fx *Prog, r *Report) {
@@ -174,6 +174,53 @@ var controlFns = map[string]func(c *ctl){
 			if f := c.fn(name); f != nil {
 				ok, _, _, _, _, _ := evalGuard(c.fx, mk(f))
 				c.expect(name, !ok, want, "E-GUARD: reach(drop) ⇒ seq<=min ∧ del ∧ base()")
+			}
+		}
+	},
+	"exact": func(c *ctl) {
+		for name, want := range map[string]bool{"(*S).GoodExact": false, "(*S).BadExactSkips": true} {
+			if f := c.fn(name); f != nil {
+				sub := newReport("ctl", "", 0, "")
+				sub.Begin("x", "E-GUARD", "x", 0)
+				checkGuardExact(c.fx, sub, GuardSpec{Rule: "ctl", Fn: f, Target: fxCall("drop"), TargetDesc: "drop()", Atoms: []Atom{cmpAtom("seq<=min", token.LEQ, mFieldLoad("fixtures/fx.S", "seq"), mFieldLoad("fixtures/fx.S", "min"))}, G: func(a []bool) bool { return a[0] }, GDesc: "seq<=min"}, isReturn, "return")
+				c.expect(name, sub.failed() > 0, want, "E-GUARD exactness: seq<=min ⇒ drop() before return")
+			}
+		}
+	},
+	"sib": func(c *ctl) {
+		offs := func(f *ssa.Function) string {
+			set := map[string]bool{}
+			instrs(f, func(_ *ssa.BasicBlock, _ int, in ssa.Instruction) {
+				if ia, ok := in.(*ssa.IndexAddr); ok {
+					set[exprSig(ia.Index, 3)] = true
+				}
+			})
+			var out []string
+			for k := range set {
+				out = append(out, k)
+			}
+			sortStrings(out)
+			return fmt.Sprint(out)
+		}
+		enc := c.fn("EncodeHdr")
+		for name, want := range map[string]bool{"DecodeHdrGood": false, "DecodeHdrBad": true} {
+			if f := c.fn(name); f != nil && enc != nil {
+				c.expect(name, offs(f) != offs(enc), want, "E-SIB: encoder and decoder index the same offsets")
+			}
+		}
+	},
+	"max": func(c *ctl) {
+		for name, want := range map[string]bool{"GoodRunningMax": false, "BadRunningMin": true} {
+			if f := c.fn(name); f != nil {
+				found := false
+				instrs(f, func(_ *ssa.BasicBlock, _ int, in ssa.Instruction) {
+					if q, ok := in.(*ssa.Phi); ok {
+						if _, _, ok := runningMaxPair(q, mAny); ok {
+							found = true
+						}
+					}
+				})
+				c.expect(name, !found, want, "E-FLOW running-maximum shape")
 			}
 		}
 	},
